@@ -54,6 +54,7 @@ QWinM11 == {-1, 0, 1}
 ModsU1 == {<<1>>}
 ModsU1Z2 == {<<1>>, <<2>>}
 ModsAll == {<<1>>, <<2>>, <<3>>, <<1, 2>>}
+ModsZ3 == {<<3>>}
 Shapes11 == {<<1, 1>>}
 ShapesPipe == {<<1, 1>>, <<2, 1>>, <<1, 2>>}
 ShapesAll == {<<1, 1>>, <<2, 1>>, <<1, 2>>, <<2, 2>>}
